@@ -222,6 +222,34 @@ def run(tier: str, seed: int) -> int:
                 failures.append({"what": ("call discipline broken: " + d["call_violations"][0]) if d.get("call_violations") else
                                  f"the program never gets past its calls (only {nyield} of its yields executed in 3000 steps, {len(d['trace'])} effects)",
                                  "src": src, "opts": opts, "code": res["code"], "template": True})
+        # branch-return family: a value-returning function whose `return`s are the last statements of the branches of a trailing
+        # if / elif / else, and which calls another function (so it saves ra); both conventions, out of line
+        for i in range(40 if tier == "quick" else 400):
+            c, a, b = r.choice([10, 3, 7]), r.choice([4, 5, 6]), r.choice([1, 2, 3])
+            pre = r.choice(["", "    d0.Setting = x\n", "    y = x + 1\n    d0.Mode = y\n"])
+            arms = [f"    if x > {a}:\n        return scale(x)\n"]
+            if r.random() < 0.6:
+                arms.append(f"    elif x > {b}:\n        return scale(x) + 2\n")
+            arms.append("    else:\n        return " + r.choice(["scale(x) + 1", "x", "scale(x + 1)"]) + "\n")
+            pp = r.random() < 0.6
+            src = (f"def scale(v):\n    return v * {c}\n\n" + "def classify(x):\n" + pre + "".join(arms) + "\n" +
+                   "n = 0\nwhile n < 4:\n    n = n + 1\n    db.Setting = classify(n * 2)\n    db.On = classify(n)\n    yield_()\ndb.Mode = n\nwhile True:\n    yield_()\n")
+            opts = whole.default_opts(inline_functions=False, append_version=False, use_push_pop_functions=pp)
+            res = whole.compile_real(src, opts)
+            if "error" in res:
+                stats["compile_errors"] = stats.get("compile_errors", 0) + 1
+                continue
+            chk.count((res["code"],), nontrivial=True)
+            stats["branch_return_runs"] = stats.get("branch_return_runs", 0) + 1
+            fake = {"funcs": [{"name": "scale", "params": ["v"], "returns": True}, {"name": "classify", "params": ["x"], "returns": True}]}
+            d = drv.call(cmd="run-ic10", text=res["code"], seed=1, steps=3000, pool=[0.0, 1.0, 2.0, 3.0], expect=expectations(res["code"], fake, opts))
+            if "parse_error" in d:
+                continue
+            nyield = sum(1 for e in d["trace"] if e[0] == "yield")
+            if d.get("call_violations") or nyield < 4:
+                failures.append({"what": ("call discipline broken: " + d["call_violations"][0]) if d.get("call_violations") else
+                                 f"the program never gets past its calls (only {nyield} of its yields executed in 3000 steps, {len(d['trace'])} effects)",
+                                 "src": src, "opts": opts, "code": res["code"], "template": True, "fake": fake})
         # synthetic instruction lists for the add_ra model
         from stationeers_pytrapic.compile_pass import FunctionData, CompileOptions
         from stationeers_pytrapic.types import IC10Instruction, IC10Register
@@ -295,7 +323,7 @@ def replay(path: str) -> int:
         drv = Driver()
         res = whole.compile_real(rp["src"], rp["opts"])
         names = re.findall(r"^def (\w+)\(", rp["src"], flags=re.M)
-        fake = {"funcs": [{"name": n, "params": ["a"], "returns": False} for n in names]}
+        fake = rp.get("fake") or {"funcs": [{"name": n, "params": ["a"], "returns": False} for n in names]}
         d = drv.call(cmd="run-ic10", text=res.get("code", ""), seed=1, steps=3000, pool=[0.0, 1.0, 2.0, 3.0], expect=expectations(res.get("code", ""), fake, rp["opts"]))
         drv.close()
         bad = d.get("call_violations") or sum(1 for e in d.get("trace", []) if e[0] == "yield") < 3
